@@ -17,6 +17,10 @@ def run(c):
     for sc in scs:
         items = cc.link_items(sc)
         pre = [sc.desc_line()]
+        if getattr(sc, "origin_tl2", False):
+            vals = cj.tl2_origin_values(c, sc, items, rng, 2 * per)
+            cj.tl2_origin_roundtrip(c, sc, model, vals)
+            continue
         # phase 0: `{}` probes (finding F3: nil recursive pointer) and the fixed lines (witnesses of known findings + positions where
         # the guarded values are harmless)
         probes = cj.probe_lines(sc, items)
